@@ -397,17 +397,17 @@ class Interp1DSlinear(InterpAlgorithmFixed):
         i_x[i_x == nx - 1] = nx - 2
 
         if self.vec_coeff is None:
-            self.coeffs = set()
+            self._vec_cached = set()
             self.vec_coeff = np.empty((nx, 2), dtype=dtype)
 
         needed = set([item for item in i_x])
-        uncached = needed.difference(self.coeffs)
+        uncached = needed.difference(self._vec_cached)
         if len(uncached) > 0:
             unc = np.array(list(uncached))
             uncached_idx = (unc, )
             a = self.compute_coeffs_vectorized(uncached_idx, dtype)
             self.vec_coeff[unc, ...] = a
-            self.coeffs.update(uncached)
+            self._vec_cached.update(uncached)
         a = self.vec_coeff[i_x, :]
 
         val = a[:, 0] + a[:, 1] * (x - grid[i_x])
@@ -651,17 +651,17 @@ class Interp2DSlinear(InterpAlgorithmFixed):
         i_y[i_y == ny - 1] = ny - 2
 
         if self.vec_coeff is None:
-            self.coeffs = set()
+            self._vec_cached = set()
             self.vec_coeff = np.empty((nx, ny, 4), dtype=dtype)
 
         needed = set([item for item in zip(i_x, i_y)])
-        uncached = needed.difference(self.coeffs)
+        uncached = needed.difference(self._vec_cached)
         if len(uncached) > 0:
             unc = np.array(list(uncached))
             uncached_idx = (unc[:, 0], unc[:, 1])
             a = self.compute_coeffs_vectorized(uncached_idx, dtype)
             self.vec_coeff[unc[:, 0], unc[:, 1], ...] = a
-            self.coeffs.update(uncached)
+            self._vec_cached.update(uncached)
         a = self.vec_coeff[i_x, i_y, :]
 
         val = a[:, 0] + (a[:, 1] + a[:, 3] * y) * x + a[:, 2] * y
@@ -991,17 +991,17 @@ class Interp3DSlinear(InterpAlgorithmFixed):
         i_z[i_z == nz - 1] = nz - 2
 
         if self.vec_coeff is None:
-            self.coeffs = set()
+            self._vec_cached = set()
             self.vec_coeff = np.empty((nx, ny, nz, 8), dtype=dtype)
 
         needed = set([item for item in zip(i_x, i_y, i_z)])
-        uncached = needed.difference(self.coeffs)
+        uncached = needed.difference(self._vec_cached)
         if len(uncached) > 0:
             unc = np.array(list(uncached))
             uncached_idx = (unc[:, 0], unc[:, 1], unc[:, 2])
             a = self.compute_coeffs_vectorized(uncached_idx, dtype)
             self.vec_coeff[unc[:, 0], unc[:, 1], unc[:, 2], ...] = a
-            self.coeffs.update(uncached)
+            self._vec_cached.update(uncached)
         a = self.vec_coeff[i_x, i_y, i_z, :]
 
         val = a[:, 0] + \
